@@ -195,6 +195,19 @@ class Executor(Engine, ExprMixin, StmtMixin, CallMixin):
             env.setdefault(n, self.lift(None))
         return env
 
+    @staticmethod
+    def ghost_names(c):
+        """ghost parameters and the `let` names that (transitively) depend on them"""
+        names = set(c.ghost)
+        changed = True
+        while changed:
+            changed = False
+            for ln, le in c.let.items():
+                if ln not in names and any(_re.search(r'\b%s\b' % _re.escape(g), le) for g in names):
+                    names.add(ln)
+                    changed = True
+        return names
+
     def apply_contract(self, st, c, f, args, kwargs, line):
         self.used_contracts.add(c.qual)
         self.caller_vars_snapshot = dict(st.vars)      # the caller's locals at the call (for call-discipline clauses)
@@ -207,6 +220,10 @@ class Executor(Engine, ExprMixin, StmtMixin, CallMixin):
                 v = env.get(n)
                 if isinstance(v, V):
                     env[n] = V(v.t, parse_spec(specs))
+            gnames = self.ghost_names(c)
+            for gname, gspec in c.ghost.items():
+                env[gname] = V(fresh('cg_' + gname), parse_spec(gspec))
+                self.assume(st, parse_spec(gspec).assumption(env[gname].t))
             pre = State(dict(env), dict(st.heap), st.guard)
             env = self.let_env(c, env, pre)
             pre.vars = dict(env)
@@ -225,7 +242,7 @@ class Executor(Engine, ExprMixin, StmtMixin, CallMixin):
             try:
                 if self.axiom_depth <= 2:
                     for name, expr in c.ensures.items():
-                        if 'FOLD(' in expr or any(_re2.search(r'\b%s\b' % _re2.escape(g), expr) for g in c.ghost):
+                        if 'FOLD(' in expr or any(_re2.search(r'\b%s\b' % _re2.escape(g), expr) for g in gnames):
                             continue
                         wd, truth = self.eval_spec(st, expr, c, env2, pre)
                         self.assume(st, z3.Implies(wd, truth))
@@ -243,6 +260,14 @@ class Executor(Engine, ExprMixin, StmtMixin, CallMixin):
                     self.oblige(st, 'calltype:%s:%s@%d' % (c.qual.split('.')[-1], n, line), self.spec_formula(st, spec, v.t),
                                 'argument %s of %s must have declared type %s' % (n, c.qual, specs))
                     env[n] = V(v.t, spec)
+        gnames = self.ghost_names(c)
+        ghost_consts = {}
+        for gname, gspec in c.ghost.items():
+            if any(_re.search(r'\b%s\b' % _re.escape(gname), r0) for r0 in c.requires):
+                raise EngineError('ghost %s of %s is constrained by a precondition: not usable at call sites' % (gname, c.qual))
+            env[gname] = V(fresh('cg_' + gname), parse_spec(gspec))
+            self.assume(st, parse_spec(gspec).assumption(env[gname].t))
+            ghost_consts[gname] = env[gname].t
         pre = State(dict(env), dict(st.heap), st.guard)
         env = self.let_env(c, env, pre)
         pre.vars = dict(env)
@@ -258,13 +283,26 @@ class Executor(Engine, ExprMixin, StmtMixin, CallMixin):
         if c.trusted:
             self.call_log.append(call_rec)
         # exceptional outcomes
-        import re as _re
 
         def mentions_ghost(expr):
-            return 'FOLD(' in expr or any(_re.search(r'\b%s\b' % _re.escape(g), expr) for g in c.ghost)
+            return 'FOLD(' in expr or any(_re.search(r'\b%s\b' % _re.escape(g), expr) for g in gnames)
+        cur0 = self.cur_contract
+        same0 = {}
+        if c.ghost and cur0 is not None:
+            same0 = {g: self.top_env[g].t for g in c.ghost if g in cur0.ghost and g in getattr(self, 'top_env', {})}
         for exname, cond in c.raises.items():
             exc = self.exc_class(exname)
-            if cond == 'maybe' or mentions_ghost(cond):
+            if cond != 'maybe' and 'FOLD(' not in cond and mentions_ghost(cond) and same0:
+                # permitted only if the condition holds for every ghost value: instantiated at the caller's ghosts
+                n0 = len(self.assumes)
+                wd, cnd0 = self.eval_spec(pre, cond, c, env, pre)
+                side = self.assumes[n0:]
+                del self.assumes[n0:]
+                sub = [(ghost_consts[g], same0[g]) for g in same0]
+                for fml in side:
+                    self.assumes.append(z3.substitute(fml, *sub))
+                cnd = And(z3.substitute(cnd0, *sub), fresh('may_raise', BoolS))
+            elif cond == 'maybe' or mentions_ghost(cond):
                 cnd = fresh('may_raise', BoolS)
             else:
                 # `raises` states when the exception is *permitted*; whether it happens is unknown
@@ -319,9 +357,38 @@ class Executor(Engine, ExprMixin, StmtMixin, CallMixin):
         call_rec['result'] = rt
         env2 = dict(env)
         env2['result'] = res
+        # Clauses over universally quantified ghost parameters: evaluated with the ghosts bound to fresh constants
+        # and then instantiated, by substitution, (a) at the caller's own ghosts of the same name and (b) at the terms
+        # the caller's contract asks for in ghost_args={callee: [{ghost: expression over the callee's parameters and
+        # `result`}, ...]}.  Sound: the callee's contract is proved for arbitrary ghost values.
+        insts = []
+        cur = self.cur_contract
+        if c.ghost and cur is not None:
+            same = {g: self.top_env[g].t for g in c.ghost if g in cur.ghost and g in getattr(self, 'top_env', {})}
+            if same:
+                insts.append(same)
+            for binding in (getattr(cur, 'ghost_args', None) or {}).get(c.qual, []):
+                m = dict(same)
+                for g, gexpr in binding.items():
+                    gv = self.eval_in(st, c, env2, gexpr)
+                    m[g] = gv.t
+                insts.append(m)
         for name, expr in c.ensures.items():
+            if 'FOLD(' in expr:
+                continue
             if mentions_ghost(expr):
-                continue      # clauses over the universally quantified ghost index are not instantiated at call sites
+                if not insts:
+                    continue      # no instantiation requested: the clause is not used at this call site
+                n0 = len(self.assumes)
+                wd, truth = self.eval_spec(st, expr, c, env2, pre)
+                self.assume(st, z3.Implies(wd, truth))
+                generic = self.assumes[n0:]
+                del self.assumes[n0:]
+                for m in insts:
+                    sub = [(ghost_consts[g], m[g]) for g in m if g in ghost_consts]
+                    for fml in generic:
+                        self.assumes.append(z3.substitute(fml, *sub))
+                continue
             wd, truth = self.eval_spec(st, expr, c, env2, pre)
             self.assume(st, z3.Implies(wd, truth))
             if getattr(self, 'debug_assumed', None) is not None:
